@@ -2,9 +2,9 @@
 //!   replay                 run every fixed scenario below; exit 1 if any expectation derived from the property statement fails
 //!   replay <scenario>      one of: arrays | later-wins | empty-key | value-and-prefix | deterministic
 //!   replay files a.json b.json ...   load the given files in that order and print the merged configuration
-//!   replay search [seed] [count]     bounded witness search over GENERATED file lists (default seed 1, 1200 random lists on
-//!                                    top of the ~330 systematic ones); `FOUND <clause>: ...` + exit 1, exit 0 otherwise, exit 2
-//!                                    when the scenario cannot be set up (temp dir, child process)
+//!   replay search [seed] [count]     bounded witness search over GENERATED file lists (default seed 1, 2500 random lists on
+//!                                    top of the 106 systematic ones, about 15 s); `FOUND <clause>: ...` + exit 1, exit 0
+//!                                    otherwise, exit 2 when the scenario cannot be set up (temp dir, child process)
 //!   replay child <dir> <n>           (internal) load the n lists written below <dir>, one result per line
 //! Decides nothing: each FOUND line is a concrete set of configuration files on which the real loader does not do what
 //! C32 says ("Loading the same configuration files in the same order always gives the same configuration. A dotted flat
@@ -68,7 +68,7 @@ fn check(name: &str, files: &[&str], expect: Value, bad: &mut u32) {
 fn main() {
     let a: Vec<String> = std::env::args().skip(1).collect();
     match a.first().map(|s| s.as_str()) {
-        Some("search") => search::run(a.get(1).and_then(|s| s.parse().ok()).unwrap_or(1), a.get(2).and_then(|s| s.parse().ok()).unwrap_or(1200)),
+        Some("search") => search::run(a.get(1).and_then(|s| s.parse().ok()).unwrap_or(1), a.get(2).and_then(|s| s.parse().ok()).unwrap_or(2500)),
         Some("child") => search::child(Path::new(&a[1]), a[2].parse().expect("n")),
         _ => fixed_scenarios(a),
     }
